@@ -975,6 +975,18 @@ def _handle_upload_pack_head(
     if protocol_version != 2:
         proto.write_pkt_line(None)
 
+    shallow_requested = (
+        depth not in (0, None) or shallow_since is not None or bool(shallow_exclude)
+    )
+    shallow_read = False
+    if shallow_requested and protocol_version != 2 and can_read is not None:
+        # A stateful v0/v1 server answers the deepen request with its
+        # shallow-update section right after our flush-pkt.  It has to be
+        # consumed before the have negotiation starts, otherwise its lines are
+        # mistaken for replies to "have" lines below.
+        (new_shallow, new_unshallow) = _read_shallow_updates(proto.read_pkt_seq())
+        shallow_read = True
+
     have = next(graph_walker)
     in_vain = 0
     got_ack = False
@@ -1007,7 +1019,9 @@ def _handle_upload_pack_head(
     if protocol_version == 2:
         proto.write_pkt_line(None)
 
-    if depth not in (0, None) or shallow_since is not None or shallow_exclude:
+    if shallow_read:
+        pass
+    elif shallow_requested:
         if can_read is not None:
             (new_shallow, new_unshallow) = _read_shallow_updates(proto.read_pkt_seq())
         else:
